@@ -1226,9 +1226,73 @@ def add_object_sessions(b, chk):
                                                scribble=True))
 
 
+def sibling_machine(rng, m):
+    """the same machine but for ONE aspect: wrap-around links, one more dead link, one more dead chip, or a
+    resource quantity - a result remembered under a key that leaves that aspect out would be served for both"""
+    from .. import gen
+    w, h = m.width, m.height
+    res, exc = dict(m.chip_resources), {k: dict(v) for k, v in m.chip_resource_exceptions.items()}
+    dc, dl = set(m.dead_chips), set(m.dead_links)
+    kind = rng.choice(("wrap", "wrap", "link", "chip", "res"))
+    if kind == "wrap":
+        seam = set(gen.mesh_dead_links(w, h))
+        dl = (dl - seam) if seam <= dl else (dl | seam)
+    elif kind == "link":
+        live = [(x, y, l) for (x, y) in m for l in Links if (x, y, l) in m]
+        if live:
+            dl.add(rng.choice(live))
+    elif kind == "chip":
+        live = [xy for xy in m]
+        if len(live) > 1:
+            dc.add(rng.choice(live))
+    else:
+        r = rng.choice(sorted(res, key=str))
+        res[r] = res[r] + rng.choice((1, 2, 5))
+    return Machine(w, h, res, exc, dc, dl)
+
+
+def make_sibling_history(rng, idx, chk):
+    """Five of the placer configurations, each called on a problem and then probed on its sibling (the same graph on
+    a machine that differs in one aspect)."""
+    from . import c02
+    b = Builder(rng, "h%d" % idx)
+    for _ in range(20):
+        vr, nets, m, cons = c02.gen_problem(rng, True, chk)
+        if len(vr) >= 4 and len(list(m)) >= 4:
+            break
+    m2 = sibling_machine(rng, m)
+    gens = {}
+    for p, mach in (("q0", m), ("q0s", m2)):
+        b.give(p + ".vr", vr)
+        b.give(p + ".nets", nets)
+        b.give(p + ".machine", mach)
+        b.give(p + ".cons", cons)
+        gens[p] = add_placers(b, p, vr, mach)
+    seed = rng.randrange(1, 1000)
+    order = ["q0", "q0s"]
+    rng.shuffle(order)
+    steps = []
+    kinds = list(range(len(gens["q0"])))
+    rng.shuffle(kinds)
+    for k in kinds[:5]:
+        first = gens[order[0]][k](seed)
+        first["safe"] = True
+        first["probe"] = False
+        second = gens[order[1]][k](seed)
+        second["safe"] = True
+        second["probe"] = True
+        second["scribble"] = False
+        steps += [first, second]
+    b.steps = steps
+    b.theme = "siblings"
+    return b
+
+
 def make_history(rng, idx, chk):
     """3-8 calls with differing arguments; the last one (a call that needs nothing from earlier calls) and a
     quarter of the others are probes"""
+    if rng.random() < 0.2:
+        return make_sibling_history(rng, idx, chk)
     b = Builder(rng, "h%d" % idx)
     theme = rng.choice(("route", "route", "place", "place", "tables", "objects", "mixed", "mixed", "focus", "focus", "focus", "focus"))
     nprob = 0
@@ -1309,9 +1373,14 @@ def assemble(job, hist_out, fresh_recs):
         if ev["kind"] == "probe":
             fr = fresh_recs[k]
             k += 1
-            if [a[:2] for a in fr["args"]] != [a[:2] for a in rec["args"]] or fr["fn"] != rec["fn"]:
-                raise MachineryError("arguments of a probe did not reach the fresh interpreter unchanged: %s %s" % (
+            if fr["fn"] != rec["fn"]:
+                raise MachineryError("a probe reached the fresh interpreter as another function: %s %s" % (
                     rec["fn"], job["label"]))
+            # The fresh interpreter builds the probe's arguments anew from their description; the history process
+            # passes the objects it has been passing all along.  If the two differ before the call, some earlier
+            # call of the history changed an argument object (the clause ArgsUnchanged of that earlier call rejects
+            # the trace first; ProbeArgumentsAsBuilt is the backstop).
+            rec["asbuilt"] = int([a[:2] for a in fr["args"]] == [a[:2] for a in rec["args"]])
             rec["fresh"] = fr["res"]
             rec["freshdefs"] = [[d[0], d[1]] for d in fr["defs"]]
         evs.append([ev["kind"], rec])
